@@ -28,8 +28,15 @@
    assignment, IfTrue / IfFalse / IfElse, Composite, While and Repeat (with or without the loop variable), nested
    at will, where locals are declared in main, in Repeat bodies (popped at the end of every round) and inside
    Composite cards in such positions (the while-language with for-loops and block-local variables); the resource
-   side is explicit (hypotheses on stack depth and budget).  STILL OPEN - carried by the differential check
-   C01Check (the real compiler + VM against eval_program) only: reals, ForEach, calls, tables, closures, natives. *)
+   side is explicit (hypotheses on stack depth and budget).
+   STATIC CALLS (fragment F9, end of this file: several functions, Call with parameters to functions declared later - no
+   recursion -, Return) are covered IN PART: the reference half (C01_f9_reference_meaning), the compiler half for the code
+   (C01_f9_compile_shape_code) and C01_f9_well_scoped are proved for all programs of the fragment; the VM half (the run of
+   that code on Vm.run) has its vocabulary and the call / return steps proved (Cao.C01SimVm9, Cao.C01SimF9) but not the
+   simulation, so there is NO C01_compile_correct_f9 yet.
+   STILL OPEN - carried by the differential check
+   C01Check (the real compiler + VM against eval_program) only: reals, ForEach, calls (end to end; recursion, dynamic
+   calls), tables, closures, natives. *)
 From Coq Require Import List NArith ZArith Bool Arith String Ascii.
 Import ListNotations.
 From Cao Require Import CardAst RefSem RefScope RefSemProofs.
@@ -997,17 +1004,18 @@ Print Assumptions C01_fragments_well_scoped.
    of parameters of f; statements are  SetGlobalVar g r | SetVar x r | Return r (not in main) | IfTrue e s | IfFalse e s |
    IfElse e s s;  a SetVar of a new name directly in a function body declares a local.  Arguments are evaluated left to
    right and the FIRST argument is bound to the LAST declared parameter; a body that ends without Return yields nil.
-   What is proved for all programs of the fragment (three of the four parts of compile_correct for it):
-     - C01_f9_compile_shape: the compiler half - compile M = COk B implies that the bytecode of B begins with the
-       encoding of C01SimDefs9.code_all9 (main, then f1 .. fk; a call = the arguments, FunctionPointer (handle of the
-       callee's position, its arity), CallFunction; a function body ends with one Pop per local - parameters included -,
-       ScalarNil, Return; a Return card = the value, Return) and that the label of function i is the address of its first
-       instruction (labels_ok9), with the facts about the table of global ids the earlier fragments use;
+   What is proved for all programs of the fragment (parts of compile_correct for it; the theorems follow the instance):
+     - C01_f9_compile_shape_code: the compiler half, the code - compile M = COk B implies that the bytecode of B begins
+       with the encoding of C01SimDefs9.code_all9 (main, then f1 .. fk; a call = the arguments, FunctionPointer (handle of
+       the callee's position, its arity), CallFunction; a function body ends with one Pop per local - parameters included -,
+       ScalarNil, Return; a Return card = the value, Return), with the facts about the table of global ids the earlier
+       fragments use.  That the label of function i is the address of its first instruction (labels_ok9 on bases_all9) is
+       checked on the instance; the general statement is C01_f9_compile_labels when it is present below, open otherwise;
      - C01_f9_reference_meaning: the reference half - eval_program fuel M host = PObs o implies that o is what the direct,
        fuel-free meaning C01SimDefs9.run_main9 computes (sem9: the meaning of the calls to the later functions, by recursion
        on the list of functions): outcome kind Ok or VarNotFound, the globals;
-     - C01_f9_well_scoped: the fragment lies inside RefScope.well_scoped.
-   Proved on the VM side (Cao.C01SimVm9, not property theorems): the vocabulary of the simulation with call frames and heap
+     - C01_f9_well_scoped: the fragment lies inside RefScope.well_scoped (function names without '.').
+   Proved on the VM side (Cao.C01SimVm9, Cao.C01SimF9.expr_f1_sim9: a pure expression in a frame at any offset; not property theorems): the vocabulary of the simulation with call frames and heap
    as part of the configuration (steps9, loop_steps9), ReadLocalVar / SetLocalVar relative to a frame offset, and the call
    protocol - FunctionPointer; CallFunction enters labels[h] in a frame whose offset is the position of the first argument
    (ex9_call), Return replaces the callee's part of the stack, arguments included, by the returned value and continues
@@ -1078,3 +1086,36 @@ Example C01_f9_instance_well_scoped :
   forallb (fun nf => negb (existsb (N.eqb 46) (fst nf))) (m_functions f9_example) = true /\
   C01SimDefs9.in_f9 f9_example = true /\ well_scoped f9_example = true.
 Proof. vm_compute. repeat split; reflexivity. Qed.
+
+(* the reference half for F9: an observation of the reference semantics is what the direct, fuel-free meaning
+   C01SimDefs9.run_main9 (runs9 over main's cards with sem9 for the calls) computes - the run ends normally or with
+   VarNotFound, and the globals are those of the direct meaning *)
+From Cao Require C01SimRef5 C01SimRef9.
+Theorem C01_f9_reference_meaning :
+  forall (fuel : nat) (M : module) (host : list str) (o : obs),
+    C01SimDefs9.in_f9 M = true -> eval_program fuel M host = PObs o ->
+    exists g, C01SimDefs9.run_main9 M = (match ob_kind o with KOk => true | _ => false end, g) /\
+              (ob_kind o = KOk \/ ob_kind o = KErr EVarNotFound) /\
+              C01SimRef5.simples g /\
+              ob_globals o = map (fun nv => (fst nv, C01SimDefs.vm_tree (C01SimDefs.to_vm (snd nv)))) g.
+Proof. exact C01SimRef9.eval_program_f9. Qed.
+Print Assumptions C01_f9_reference_meaning.
+
+(* the compiler half for F9, the code: the bytecode of a compiled program of the fragment begins with the encoding of
+   C01SimDefs9.code_all9 (main, then the other functions in order), every global name of the program has an id, the id
+   table is injective and below 2^32, and no two global names of the program share their handle.  (That the label of
+   function i is the address of its first instruction - C01SimDefs9.labels_ok9 on bases_all9 - is checked on the instance
+   above; see the header of this section for its status.) *)
+From Cao Require C01SimComp9.
+Theorem C01_f9_compile_shape_code :
+  forall (M : module) (B : Compiler.compiled),
+    C01SimDefs9.in_f9 M = true -> Compiler.compile M CompilerProofs.default_options = Compiler.COk B ->
+    (N.of_nat (List.length (Compiler.p_ids B)) < Bits.two32)%N ->
+    exists rest,
+      Compiler.p_bytecode B = Bytecode.encode (C01SimDefs9.code_all9 (Compiler.p_ids B) M ++ rest) /\
+      (forall n, In n (C01SimDefs9.gnames9 M) -> Compiler.nm_find (Bits.handle_of_bytes n) (Compiler.p_ids B) <> None) /\
+      (forall h1 h2 id, Compiler.nm_find h1 (Compiler.p_ids B) = Some id -> Compiler.nm_find h2 (Compiler.p_ids B) = Some id -> h1 = h2) /\
+      (forall h id, Compiler.nm_find h (Compiler.p_ids B) = Some id -> (id < Bits.two32)%N) /\
+      C01SimDefs.handles_inj (C01SimDefs9.gnames9 M) = true.
+Proof. exact C01SimComp9.compile_f9_shape_code. Qed.
+Print Assumptions C01_f9_compile_shape_code.
